@@ -39,13 +39,17 @@ pub mod client {
 pub mod server {
     use anyhow::Result;
     use anyhow::anyhow;
+    use anyhow::bail;
     use futures::SinkExt;
     use futures::StreamExt;
     use tokio::net::TcpStream;
     use tokio_util::codec::FramedRead;
     use tokio_util::codec::FramedWrite;
 
+    use crate::protocol::address::Address;
     use crate::protocol::socks5::Socks5AuthMethod;
+    use crate::protocol::socks5::Socks5CommandStatus;
+    use crate::protocol::socks5::Socks5CommandType;
     use crate::protocol::socks5::codec::Socks5CommandRequestDecoder;
     use crate::protocol::socks5::codec::Socks5InitialRequestDecoder;
     use crate::protocol::socks5::codec::Socks5ServerEncoder;
@@ -62,6 +66,12 @@ pub mod server {
         let mut writer = FramedWrite::new(wh, Socks5ServerEncoder);
         writer.send(Box::new(Socks5InitialResponse::new(Socks5AuthMethod::NoAuth))).await?;
         let command_request = reader.next().await.ok_or_else(|| anyhow!("connection closed during the handshake"))??;
+        // only CONNECT to a nameable target is served: anything else is answered with a failure, not with a tunnel
+        let unnamed = matches!(&command_request.dst_addr, Address::Domain(host, _) if host.is_empty());
+        if command_request.command_type != Socks5CommandType::Connect || unnamed {
+            writer.send(Box::new(Socks5CommandResponse::new(Socks5CommandStatus::Failure, response.bnd_addr))).await?;
+            bail!("unsupported socks5 request: {:?} {}", command_request.command_type, command_request.dst_addr);
+        }
         writer.send(Box::new(response)).await?;
         Ok(command_request)
     }
